@@ -551,10 +551,12 @@ fn opt_all_cases() -> Vec<(usize, usize, usize)> { let mut v = vec![]; for b in 
 // ---------------------------------------------------------------- C15: doc text stays inside comments of the generated code
 /// doc strings over the property's alphabet; every one carries the marker INJ<k> right after the dangerous sequence, so that a lexer of the
 /// target language can tell whether the marker ended up outside a comment / docstring
-const DOC_TEXTS: [&str; 14] = [
+const DOC_TEXTS: [&str; 18] = [
     "plain text INJ0", "first\nINJ1 second line", "ends a block */ INJ2 /* reopens", "opens /* INJ3 nested", "line // INJ4 slashes",
     "quotes \"\"\" INJ5 \"\"\" triple", "single ''' INJ6 ''' triple", "back\\slash \\\" INJ7 \\", "trailing backslash INJ8 \\", "hash # INJ9 text",
     "tick ` INJ10 ` tick", "cr\rINJ11 after carriage return", "*/\nINJ12\n/*", "\"\"\"\nINJ13 = 1\n\"\"\"",
+    // quote runs that are not a multiple of three, a backslash right before the quotes, ragged indentation after a line break
+    "four \"\"\"\" INJ14 \"\"\"\" quotes", "five \"\"\"\"\" INJ15 quotes", "escaped \\\"\"\" INJ16 \\\"\"\" run", "first\n    indented\nINJ17 back at the margin",
 ];
 /// how the doc text is written in the Rust source: 0 `///` lines, 1 `/** */`, 2 #[doc = ".."]
 fn doc_attr(text: &str, form: usize) -> Option<String> {
@@ -565,7 +567,14 @@ fn doc_attr(text: &str, form: usize) -> Option<String> {
     }
 }
 /// the program: doc text `d` at every documentable position
-fn doc_program(d: usize, form: usize) -> Option<String> {
+fn doc_program(d: usize, form: usize) -> Option<String> { doc_program_named(d, form, false) }
+/// godoc style: every doc text starts with the name of the item it documents, and the names end in `Id` (renamed by Go's acronym list)
+fn doc_program_named(d: usize, form: usize, godoc: bool) -> Option<String> {
+    if godoc {
+        let at = |n: &str| doc_attr(&format!("{} {}", n, DOC_TEXTS[d]), form);
+        return Some(format!("{}#[typeshare]\npub struct AccountId {{\n{}pub f: u32,\n}}\n{}#[typeshare]\npub enum KindId {{\n{}A,\n}}\n{}#[typeshare]\n#[serde(tag = \"t\", content = \"c\")]\npub enum EventId {{\n{}T(u32),\n{}V {{\n{}x: u32,\n}},\n}}\n{}#[typeshare]\npub type AliasId = Vec<u32>;\n",
+            at("AccountId")?, at("f")?, at("KindId")?, at("A")?, at("EventId")?, at("T")?, at("V")?, at("x")?, at("AliasId")?));
+    }
     let a = doc_attr(DOC_TEXTS[d], form)?;
     Some(format!("{a}#[typeshare]\npub struct S {{\n{a}pub f: u32,\n}}\n{a}#[typeshare]\npub enum U {{\n{a}A,\n{a}B,\n}}\n{a}#[typeshare]\n#[serde(tag = \"t\", content = \"c\")]\npub enum E {{\n{a}T(u32),\n{a}V {{\n{a}x: u32,\n}},\n{a}N,\n}}\n{a}#[typeshare]\npub type Al = Vec<u32>;\n", a = a))
 }
@@ -622,10 +631,11 @@ fn code_regions(lang: &str, out: &str) -> Vec<(usize, usize)> {
     v
 }
 /// -> Some(description) when a marker of the doc text lies outside every comment / docstring, or the doc text is not reproduced at all
-fn doc_case(d: usize, form: usize) -> Option<String> {
+fn doc_case(d: usize, form: usize) -> Option<String> { doc_case_named(d, form, false).or_else(|| doc_case_named(d, form, true)) }
+fn doc_case_named(d: usize, form: usize, godoc: bool) -> Option<String> {
     use std::collections::HashMap;
     use typeshare_core::language::{Go, Kotlin, Language, Python, Scala, Swift, TypeScript};
-    let src = match doc_program(d, form) { Some(s) => s, None => return None };
+    let src = match doc_program_named(d, form, godoc) { Some(s) => s, None => return None };
     let marker = format!("INJ{}", d);
     for lang in TYPE_LANGS {
         let data = match panic::catch_unwind(|| parse_named(&src, "f.rs")) { Ok(Some(x)) => x, Ok(None) => return Some("no parsed data".into()), Err(_) => return Some("the parser panicked".into()) };
@@ -633,7 +643,7 @@ fn doc_case(d: usize, form: usize) -> Option<String> {
         let mut out: Vec<u8> = Vec::new();
         let mut l: Box<dyn Language> = match lang { "typescript" => Box::new(TypeScript { no_version_header: true, ..Default::default() }), "kotlin" => Box::new(Kotlin { package: "p".into(), no_version_header: true, ..Default::default() }),
             "swift" => Box::new(Swift { no_version_header: true, ..Default::default() }), "scala" => Box::new(Scala { package: "p.q".into(), no_version_header: true, ..Default::default() }),
-            "go" => Box::new(Go { package: "p".into(), no_version_header: true, ..Default::default() }), _ => Box::new(Python { no_version_header: true, ..Default::default() }) };
+            "go" => Box::new(Go { package: "p".into(), no_version_header: true, uppercase_acronyms: if godoc { vec!["ID".to_string()] } else { vec![] }, ..Default::default() }), _ => Box::new(Python { no_version_header: true, ..Default::default() }) };
         if let Err(e) = l.generate_types(&mut out, &HashMap::new(), data) { return Some(format!("{}: generation failed: {}", lang, e)); }
         let out = String::from_utf8(out).unwrap();
         if !out.contains(&marker) { return Some(format!("{}: the doc text is not reproduced in the output", lang)); }
@@ -642,6 +652,77 @@ fn doc_case(d: usize, form: usize) -> Option<String> {
                 let line_start = out[..a + p].rfind('\n').map_or(0, |x| x + 1);
                 let line_end = out[a + p..].find('\n').map_or(out.len(), |x| a + p + x);
                 return Some(format!("{}: doc text {:?} ({}) ends up OUTSIDE a comment: the line `{}` is code", lang, DOC_TEXTS[d], ["/// lines", "/** */ block", "#[doc = ..]"][form], out[line_start..line_end].trim()));
+            }
+        }
+    }
+    None
+}
+
+// ---------------------------------------------------------------- C12: every helper name typeshare introduces is defined or imported
+/// trigger types: (source spelling, language -> helper names the output then uses)
+const HELPER_TRIGGERS: [&str; 8] = ["()", "u8", "u16", "u32", "U53", "OffsetDateTime", "Vec<u32>", "HashMap<String, u32>"];
+/// nestings of a trigger type X
+const HELPER_NEST: [&str; 9] = ["X", "Vec<X>", "Option<X>", "Vec<Vec<X>>", "Option<Vec<X>>", "HashMap<String, X>", "HashMap<String, Vec<X>>", "[X; 2]", "Wrap<X>"];
+/// positions: 0 struct field, 1 tuple-variant payload, 2 struct-variant field, 3 alias target
+fn helper_program(trigger: usize, nest: usize, pos: usize) -> String {
+    let ty = HELPER_NEST[nest].replace("X", HELPER_TRIGGERS[trigger]);
+    let wrap = "#[typeshare]\npub struct Wrap<T> { pub t: T }\n";
+    match pos {
+        0 => format!("{}#[typeshare]\npub struct S {{ pub f: {} }}\n", wrap, ty),
+        1 => format!("{}#[typeshare]\n#[serde(tag = \"t\", content = \"c\")]\npub enum E {{ V({}), W }}\n", wrap, ty),
+        2 => format!("{}#[typeshare]\n#[serde(tag = \"t\", content = \"c\")]\npub enum E {{ V {{ x: {} }}, W }}\n", wrap, ty),
+        _ => format!("{}#[typeshare]\npub type Al = {};\n", wrap, ty),
+    }
+}
+/// (name used in code, text that defines or imports it) pairs of one language; a use is a whole-token occurrence outside comments
+fn helper_names(lang: &str) -> Vec<(&'static str, Vec<&'static str>)> {
+    match lang {
+        "swift" => vec![("CodableVoid", vec!["struct CodableVoid"])],
+        "scala" => vec![("UByte", vec!["type UByte ="]), ("UShort", vec!["type UShort ="]), ("UInt", vec!["type UInt ="]), ("ULong", vec!["type ULong ="])],
+        "python" => vec![("List", vec!["import List", ", List", "import (List"]), ("Dict", vec!["import Dict", ", Dict"]), ("Optional", vec!["import Optional", ", Optional"]),
+                         ("datetime", vec!["from datetime import datetime"]), ("BaseModel", vec!["import BaseModel", ", BaseModel"]), ("Field", vec!["import Field", ", Field"]),
+                         ("Literal", vec!["import Literal", ", Literal"]), ("Union", vec!["import Union", ", Union"]), ("Enum", vec!["import Enum"]), ("TypeVar", vec!["import TypeVar", ", TypeVar"]),
+                         ("Generic", vec!["import Generic", ", Generic"]), ("Annotated", vec!["import Annotated", ", Annotated"]), ("BeforeValidator", vec!["BeforeValidator,", "import BeforeValidator", ", BeforeValidator"]),
+                         ("ConfigDict", vec!["ConfigDict,", ", ConfigDict", "import ConfigDict"])],
+        "go" => vec![("time.Time", vec!["import \"time\"", "\"time\""]), ("json.", vec!["\"encoding/json\""])],
+        "typescript" => vec![("ReviverFunc", vec!["export const ReviverFunc"])],
+        _ => vec![],
+    }
+}
+fn token_uses(code: &str, name: &str) -> usize {
+    let b = code.as_bytes(); let mut n = 0; let mut from = 0;
+    while let Some(i) = code[from..].find(name) {
+        let s = from + i; let e = s + name.len();
+        let before_ok = s == 0 || !(b[s - 1].is_ascii_alphanumeric() || b[s - 1] == b'_' || b[s - 1] == b'.');
+        let after_ok = e >= b.len() || !(b[e].is_ascii_alphanumeric() || b[e] == b'_') || name.ends_with('.');
+        if before_ok && after_ok { n += 1; }
+        from = e;
+    }
+    n
+}
+/// -> Some(description) when a helper name is used in the generated code of some language but neither defined nor imported there
+fn helper_case2(trigger: usize, nest: usize, pos: usize) -> Option<String> {
+    use std::collections::HashMap;
+    use typeshare_core::language::{Go, Kotlin, Language, Python, Scala, Swift, TypeScript};
+    let src = helper_program(trigger, nest, pos);
+    for lang in TYPE_LANGS {
+        let data = match panic::catch_unwind(|| parse_named(&src, "f.rs")) { Ok(Some(x)) => x, Ok(None) => return Some("no parsed data".into()), Err(_) => return Some("the parser panicked".into()) };
+        if !data.errors.is_empty() { return None; }   // not a supported program (e.g. an alias of a bare container): nothing to check
+        let mut out: Vec<u8> = Vec::new();
+        let mut l: Box<dyn Language> = match lang { "typescript" => Box::new(TypeScript { no_version_header: true, ..Default::default() }), "kotlin" => Box::new(Kotlin { package: "p".into(), no_version_header: true, ..Default::default() }),
+            "swift" => Box::new(Swift { no_version_header: true, ..Default::default() }), "scala" => Box::new(Scala { package: "p.q".into(), no_version_header: true, ..Default::default() }),
+            "go" => Box::new(Go { package: "p".into(), no_version_header: true, ..Default::default() }), _ => Box::new(Python { no_version_header: true, ..Default::default() }) };
+        if l.generate_types(&mut out, &HashMap::new(), data).is_err() { continue; }   // a refusal (OffsetDateTime in Kotlin / Swift / Scala) uses no name
+        let out = String::from_utf8(out).unwrap();
+        // uses are counted in code only (not in comments / strings)
+        let code: String = code_regions(lang, &out).iter().map(|(a, b)| &out[*a..*b]).collect::<Vec<_>>().join(" ");
+        for (name, defs) in helper_names(lang) {
+            let uses = token_uses(&code, name);
+            let defined = defs.iter().any(|d| out.contains(d));
+            // a definition line itself counts as one use of the name
+            let own = defs.iter().map(|d| if token_uses(d, name) > 0 { out.matches(d).count() } else { 0 }).sum::<usize>();
+            if uses > own && !defined {
+                return Some(format!("{}: `{}` is used in the generated code of `{}` but neither defined nor imported there", lang, name, src.lines().rev().take(2).collect::<Vec<_>>().into_iter().rev().collect::<Vec<_>>().join(" ")));
             }
         }
     }
@@ -1142,7 +1223,19 @@ fn main() {
             }
             let mut n = 0;
             for d in 0..DOC_TEXTS.len() { for f in 0..3 { if doc_program(d, f).is_some() { n += 1; if let Some(m) = doc_case(d, f) { report(d, f, m); } } } }
-            println!("no failing input among {} (doc text, spelling) pairs x 12 documentable positions x 6 languages", n);
+            println!("no failing input among {} (doc text, spelling) pairs x 12 documentable positions x 6 languages, plus the same in godoc style (doc text starts with the item name, names end in `Id`, Go with an acronym list)", n);
+            std::process::exit(0);
+        }
+        Some("helper-search") | Some("helper-check") => {
+            let report = |t: usize, n: usize, p: usize, m: String| { println!("WITNESS {{\"input\": {{\"trigger\": {}, \"nest\": {}, \"position\": {}}}, \"fails\": {:?}}}", t, n, p, m); std::process::exit(1); };
+            if a[1] == "helper-check" {
+                let (t, n, p): (usize, usize, usize) = (a[2].parse().unwrap(), a[3].parse().unwrap(), a[4].parse().unwrap());
+                if let Some(m) = helper_case2(t, n, p) { report(t, n, p, m); }
+                println!("input passes"); std::process::exit(0);
+            }
+            let mut k = 0;
+            for t in 0..HELPER_TRIGGERS.len() { for n in 0..HELPER_NEST.len() { for p in 0..4 { k += 1; if let Some(m) = helper_case2(t, n, p) { report(t, n, p, m); } } } }
+            println!("no failing input among {} programs (8 trigger types x 9 nestings x 4 positions) x 6 languages", k);
             std::process::exit(0);
         }
         Some("wire-search") | Some("wire-check") => {
